@@ -114,6 +114,9 @@ type sgen struct {
 // free draws a free-text string: from plain (realistic values) or, with
 // Opts.Special, a concatenation of 1-3 pieces of the special classes.
 func (g sgen) free(label string, plain []string) string {
+	if g.opts.TextBlocks && !strings.HasSuffix(label, ".key") && g.chance(label+"?textblock", 6) {
+		return g.textBlock(label)
+	}
 	if !g.opts.Special || !g.chance(label+"?special", 50) {
 		return Sanitize(rapid.SampledFrom(plain).Draw(g.t, label))
 	}
